@@ -66,6 +66,31 @@ Section Measure.
     | r :: rest => draw r (fun b => if forallb (memb b) all then Ret b else inter_tree_n all rest)
     end.
 
+  (* acceptance weight of the n-ary intersection sampler: P(return a) = mu a * inter_w for every a of the intersection *)
+  Definition inall (all : list region) (b : nat) : bool := forallb (memb b) all.
+  Fixpoint inter_w (all todo : list region) : Q :=
+    match todo with
+    | [] => 0
+    | r :: rest => 1 / size r + size (filter (fun b => negb (inall all b)) r) / size r * inter_w all rest
+    end.
+
+  (* PolygonalRegion.uniformPointInner: a triangle by random.choices(cum_weights = cumulative triangle areas), then
+     points of the triangle's bounding box until one lies in the triangle.  A triangle is given by its bounding box B
+     (a region) and a predicate-region T: its atoms are those of B that belong to T.  [fuel] bounds the number of
+     rounds of the loop; Rej stands for "still looping". *)
+  Definition tri_atoms (B T : region) : region := filter (fun b => memb b T) B.
+  Fixpoint retry_tree (fuel : nat) (B T : region) : ptree :=
+    match fuel with
+    | O => Rej
+    | S f => draw B (fun b => if memb b T then Ret b else retry_tree f B T)
+    end.
+  Definition tri_total (tris : list (region * region)) : Q :=
+    (fix go (l : list (region * region)) : Q := match l with [] => 0 | (B, T) :: l' => size (tri_atoms B T) + go l' end) tris.
+  Definition poly_tree (fuel : nat) (tris : list (region * region)) : ptree :=
+    Choice (map (fun bt => (size (tri_atoms (fst bt) (snd bt)) / tri_total tris, retry_tree fuel (fst bt) (snd bt))) tris).
+  (* share of a bounding box outside its triangle; q^n = probability that the loop is still running after n rounds *)
+  Definition miss (B T : region) : Q := size (filter (fun b => negb (memb b T)) B) / size B.
+
   (* UnionRegion.genericSampler: operand i with probability size_i / sum of sizes
      (random.choices(weights=sizes)), a point of it, then reject with probability 1 - 1/count
      where count = number of operands containing the point *)
@@ -77,6 +102,9 @@ Section Measure.
                            draw r (fun b => Choice [(1 - 1 / qnat (count regs b), Rej);
                                                     (1 / qnat (count regs b), Ret b)]))) regs).
 End Measure.
+
+Fixpoint qpow (q : Q) (n : nat) : Q := match n with O => 1 | S k => q * qpow q k end.
+Fixpoint geom (q : Q) (n : nat) : Q := match n with O => 0 | S k => 1 + q * geom q k end.
 
 (* PointSetRegion.intersect's sampler: candidates filtered by the other region, random.choice *)
 Definition ps_inter_tree (P O : region) : ptree :=
